@@ -45,6 +45,8 @@ MkGC(ms) == IF ms = <<>> THEN [t |-> "GeometryCollection", ct |-> "XY", c |-> <<
             ELSE LET ct == CommonCt(ms) IN [t |-> "GeometryCollection", ct |-> ct, c |-> [i \in 1..Len(ms) |-> Force(ms[i], ct)]]
 MultiOf(t) == CASE t = "Point" -> "MultiPoint" [] t = "LineString" -> "MultiLineString" [] t = "Polygon" -> "MultiPolygon"
 MkMulti(ms) == LET ct == CommonCt(ms) IN [t |-> MultiOf(ms[1].t), ct |-> ct, c |-> [i \in 1..Len(ms) |-> Force(ms[i], ct).c]]
+\* NewPolygon from rings: the same reduction, applied to the rings
+MkPoly(ms) == LET ct == CommonCt(ms) IN [t |-> "Polygon", ct |-> ct, c |-> [i \in 1..Len(ms) |-> Force(ms[i], ct).c]]
 \* the leaves, in order
 RECURSIVE Dump(_)
 Dump(g) == CASE g.t \in {"Point","LineString","Polygon"} -> <<g>>
@@ -82,5 +84,6 @@ Apply(act, arg, g) ==
     [] act = "mkgc" -> MkGC(<<g, arg>>)
     [] act = "mkgc1" -> MkGC(<<g>>)
     [] act = "mkmulti" -> MkMulti(<<g, arg>>)
+    [] act = "mkpoly" -> MkPoly(<<g, arg>>)
     [] act \in {"snap0","densify","wkb","wkt","forcecw","forceccw"} -> g
 =============================================================================
